@@ -1,6 +1,6 @@
 """C14 -- job results and life-cycle predicates tell the truth"""
 from env.scenario import Profile
-from props.common import scenario_harness
+from props.common import scenario_harness, edit_before_run
 from props import oracles as O
 
 TITLE = "job results and life-cycle predicates tell the truth"
@@ -22,6 +22,9 @@ def harnesses(tier):
             scenario_harness("nested", Profile(
                 templates=("N12",), raises="free", crit_job="free", crit_sched="free", perm="id"), [],
                 sampler=smp),
+            scenario_harness("inspected-and-edited-before-run", Profile(
+                templates=("F3",), window="free", crit_job=False, perm="id", top="pure"), [], sampler=smp,
+                pre=edit_before_run),
         ]
     return [
         scenario_harness("flat-window-outcomes", Profile(
